@@ -247,8 +247,13 @@ def _layers(prop):
     return ls
 
 
+def _iter_layer(prop, tier, seed, out, mc):
+    from . import p_iter
+    return p_iter.iter_layer(prop, tier, seed, out, mc)
+
+
 CHECKS = {
     'C01': lambda tier, seed: run_prop('C01', tier, seed, _layers('C01')),
     'C06': lambda tier, seed: run_prop('C06', tier, seed, _layers('C06')),
-    'C07': lambda tier, seed: run_prop('C07', tier, seed, _layers('C07')),
+    'C07': lambda tier, seed: run_prop('C07', tier, seed, _layers('C07') + [_iter_layer]),
 }
